@@ -172,6 +172,9 @@ def valid(abbr, typ):
     return _VALID[k]
 
 
+BIG = '\x00'        # marks the three-element abbreviations (plain round trip only; the prefix / look-ahead-off variants stop at two)
+
+
 def abbreviations(first, nmax):
     e0 = ELEMENTS[first]
     yield e0
@@ -183,8 +186,8 @@ def abbreviations(first, nmax):
                 if nmax >= 3:
                     for j2 in JOINS:
                         for e2 in ELEMENTS:
-                            yield e0 + j + e1 + j2 + e2
-                    yield e0 + '>(' + e1 + '+' + ELEMENTS[(first + 3) % len(ELEMENTS)] + ')'
+                            yield BIG + e0 + j + e1 + j2 + e2
+                    yield BIG + e0 + '>(' + e1 + '+' + ELEMENTS[(first + 3) % len(ELEMENTS)] + ')'
 
 
 def run_shard(shard, ctx, tier):
@@ -233,6 +236,8 @@ def run_shard(shard, ctx, tier):
         gen = ((a, 'markup') for a in abbreviations(shard['first'], b['elements']))
     abbr = None
     for abbr, typ in gen:
+        big = abbr.startswith(BIG)
+        abbr = abbr.lstrip(BIG)
         ctx.tick(abbr)
         if not valid(abbr, typ):
             ctx.skip('generated abbreviation does not expand (not valid)')
@@ -248,7 +253,7 @@ def run_shard(shard, ctx, tier):
                     bad = roundtrip(left, abbr, right, typ, tail)
                     if bad:
                         ctx.violation(bad[0], dict(left=left, abbr=abbr, right=right, type=typ, tail=tail), bad[1])
-        for left in NOLA_LEFT:
+        for left in ([] if big else NOLA_LEFT):
             for right in NOLA_RIGHT:
                 ctx.transitions += 1
                 ctx.evals += 1
@@ -257,7 +262,7 @@ def run_shard(shard, ctx, tier):
                 bad = roundtrip_nola(left, abbr, right, typ)
                 if bad:
                     ctx.violation(bad[0], dict(left=left, abbr=abbr, right=right, type=typ, nola=True), bad[1])
-        if typ == 'markup':
+        if typ == 'markup' and not big:
             # the same with a configured prefix written before the abbreviation
             for left in PREFIX_LEFT:
                 for right in RIGHT[:2]:
